@@ -357,7 +357,7 @@ type ReencCase struct {
 	Resign bool `json:"resign,omitempty"`
 }
 
-var sigKinds = []string{"sig-ecdsa-s-plus-n", "sig-ecdsa-r-plus-n", "sig-ecdsa-n-minus-s", "sig-der-long-length", "sig-der-padded-int", "sig-der-trailing-byte", "sig-prepend-zero", "sig-append-zero", "sig-drop-leading-zero", "sig-frame-prepend-header", "sig-frame-append-header", "sig-frame-prepend-varsig-prefix", "sig-frame-prepend-length", "sig-frame-prepend-key-code", "sig-frame-doubled", "sig-frame-prepend-ff"}
+var sigKinds = []string{"sig-ecdsa-s-plus-n", "sig-ecdsa-r-plus-n", "sig-ecdsa-n-minus-s", "sig-der-long-length", "sig-der-padded-int", "sig-der-trailing-byte", "sig-prepend-zero", "sig-append-zero", "sig-drop-leading-zero", "sig-frame-prepend-header", "sig-frame-append-header", "sig-frame-prepend-varsig-prefix", "sig-frame-prepend-length", "sig-frame-prepend-key-code", "sig-frame-doubled", "sig-frame-prepend-ff", "sig-hdr-nonminimal-0", "sig-hdr-nonminimal-1", "sig-hdr-nonminimal-2", "sig-hdr-nonminimal-3", "sig-hdr-nonminimal-4"}
 
 func curveN(a keys.Alg) *big.Int {
 	switch a {
@@ -454,6 +454,46 @@ func buildVariant(rc ReencCase, sealed []byte) (variant []byte, ok bool) {
 		}
 		root.Items[0].Data = sig
 		return root.Bytes(), true
+	}
+	if strings.HasPrefix(rc.Kind, "sig-hdr-nonminimal-") {
+		// the varsig HEADER re-spelled: its k-th varint written with one byte more than needed (a continuation bit and
+		// a zero byte). Same numbers, other bytes, same signature, canonical CBOR around it - no key needed. The
+		// signature covers the header bytes, so this is either refused or ... nothing else.
+		k := int(rc.Kind[len(rc.Kind)-1] - '0')
+		if len(root.Items) != 2 || root.Items[1].Major != 5 {
+			return nil, false
+		}
+		for i := 0; i+1 < len(root.Items[1].Items); i += 2 {
+			if key := root.Items[1].Items[i]; key.Major == 3 && string(key.Data) == "h" {
+				hdr := root.Items[1].Items[i+1].Data
+				var out []byte
+				seg, done := 0, false
+				for pos := 0; pos < len(hdr); {
+					end := pos
+					for end < len(hdr) && hdr[end]&0x80 != 0 {
+						end++
+					}
+					if end >= len(hdr) {
+						return nil, false
+					}
+					v := append([]byte{}, hdr[pos:end+1]...)
+					if seg == k {
+						v[len(v)-1] |= 0x80
+						v = append(v, 0x00)
+						done = true
+					}
+					out = append(out, v...)
+					pos = end + 1
+					seg++
+				}
+				if !done {
+					return nil, false
+				}
+				root.Items[1].Items[i+1].Data = out
+				return root.Bytes(), true
+			}
+		}
+		return nil, false
 	}
 	if strings.HasPrefix(rc.Kind, "sig-frame-") {
 		// the same signature in another FRAMING that needs no key: with the envelope's own varsig header (or
